@@ -166,6 +166,24 @@ impl ChunkStateMmapper {
     }
 }
 
+/// Verification hooks (read-only accessors for `util::verif::c30`).
+#[cfg(feature = "verif")]
+impl ChunkStateMmapper {
+    pub(crate) fn verif_get_state(&self, chunk: Address) -> u8 {
+        self.storage.get_state(chunk) as u8
+    }
+
+    #[cfg(target_pointer_width = "64")]
+    pub(crate) fn verif_log_slab_bytes() -> usize {
+        two_level_storage::VERIF_LOG_MMAP_SLAB_BYTES
+    }
+
+    #[cfg(target_pointer_width = "64")]
+    pub(crate) fn verif_slab_allocated(&self, addr: Address) -> bool {
+        self.storage.verif_slab_allocated(addr)
+    }
+}
+
 impl Mmapper for ChunkStateMmapper {
     fn log_granularity(&self) -> u8 {
         LOG_BYTES_IN_CHUNK as u8
